@@ -5,6 +5,8 @@ returns an exit code; the CLI binary's copy is analysed because `main` lives the
   R-C06-constants       SUCCESS=0, FAILURE=19, ERROR=5, TEST_ERROR!=0, TEST_FAILURE=7
   R-C06-tables          evaluate_rule, evaluate_against_data_input, test::get_exit_code, TestResult::get_exit_code,
                         JunitReporter::update_exit_code, main (Ok(code) -> exit(code), Err -> exit(-1))
+  R-C06-test-files-considered  the --test-data suffix filter of `test` accepts every documented spelling (.json .yaml .yml .jsn, upper-case
+                        .JSON .YAML): a spec file that is filtered out cannot make the run exit 7
   R-C06-folds           every exit-code accumulation: result 0 iff nothing went wrong; failures only => failure
                         code; errors only => error code; an observed error never ends in 0 (nor in 19 for validate)
 """
@@ -568,8 +570,58 @@ def structured_parse_closure(ctx, cr):
            sample={"constructions": len(seen)})
 
 
+TEST_DATA_SUFFIXES = {".json", ".yaml", ".JSON", ".YAML", ".yml", ".jsn"}
+
+
+def suffix_literals(cr, keys):
+    """string constants that look like file suffixes in the given bodies and in the named constants they refer to"""
+    out = set()
+
+    def scan(o, depth):
+        if isinstance(o, dict):
+            kk = o.get("k")
+            if isinstance(kk, dict):
+                sv = kk.get("str")
+                if isinstance(sv, str) and sv.startswith(".") and len(sv) <= 12:
+                    out.add(sv)
+                nm = kk.get("named")
+                if nm and depth < 2:
+                    cb = cr.fns.get(M.norm_path(str(nm))) or cr.fns.get(str(nm))
+                    if cb is not None and cb.get("kind") in ("const", "static"):
+                        scan(cb["blocks"], depth + 1)
+            for v in o.values():
+                scan(v, depth)
+        elif isinstance(o, list):
+            for v in o:
+                scan(v, depth)
+    for k in keys:
+        scan(cr.fns[k]["blocks"], 0)
+        scan(cr.fns[k].get("promoted", []), 0)      # `&TABLE` / `TABLE.iter()` reads the table through a promoted constant
+    return out
+
+
+def test_files_considered(ctx, cr):
+    """`test` exits 7 when an expectation is not met — provided the file with that expectation is looked at.  The --test-data filter of
+    Test::execute accepts exactly the documented spellings of the JSON / YAML suffixes (lower and upper case); a filter that loses one
+    makes `cfn-guard test -t specs.JSON` skip the file and exit 0."""
+    rule = "R-C06-test-files-considered"
+    EX = "<commands::test::Test as commands::Executable>::execute"
+    keys = [k for k in cr.fns if k.startswith(EX + "::{closure")]
+    filt = [k for k in keys if any(M.norm_path(t["fn"].get("path", "")).endswith("<impl str>::ends_with") or "ends_with" in M.norm_path(t["fn"].get("path", "")) for bi, t in M.iter_calls(cr.fns[k]))]
+    if not filt:
+        ctx.lost(rule, rule + ":filter", "the suffix filter closure of Test::execute (no ends_with test found)")
+        return
+    roots = set(k.split("::{closure")[0] + "::{closure" + k.split("::{closure")[1] for k in filt)
+    unit = [k for k in keys if any(k.startswith(r) for r in roots)]
+    got = suffix_literals(cr, unit)
+    missing, extra = TEST_DATA_SUFFIXES - got, got - TEST_DATA_SUFFIXES
+    ctx.ob(rule, rule + ":suffixes", not missing, ("the --test-data filter no longer accepts %s (accepts %s): such a spec file is silently skipped and its failed expectations do not reach the exit code" % (sorted(missing), sorted(got))) if missing
+           else "the --test-data filter accepts %s" % sorted(got), fn=cr.fns[EX] if EX in cr.fns else None, sample={"accepts": sorted(got)})
+
+
 def run(ctx):
     cr = ctx.bin
+    test_files_considered(ctx, cr)
     constants(ctx, cr)
     tables(ctx, cr)
     main_table(ctx, cr)
